@@ -110,7 +110,7 @@ func init() {
 			for _, e := range evs(t) {
 				if s(e, "op") == "dimacs" {
 					hv := n(e, "hdrVars")
-					if hv > 16 {
+					if hv > 13 {
 						cov["export.too-large-for-enumeration"]++
 					} else {
 						cov["export.enumerated"]++
@@ -123,7 +123,7 @@ func init() {
 			}
 			return nt
 		},
-		Rule:    "cases: formula trees of depth <=3 over <=6 names (all connectives; exactly-one groups of size 1..6 only at positive polarity) exported by bf.Dimacs; the export is tokenised (header, name comments, clauses) and, up to 16 variables, its models are enumerated by TLC and compared both ways with the formula's truth table; non-trivial = at least two clauses exported",
+		Rule:    "cases: formula trees of depth <=3 over <=6 names (all connectives; exactly-one groups of size 1..6 only at positive polarity) exported by bf.Dimacs; the export is tokenised (header, name comments, clauses) and, up to 13 variables, its models are enumerated by TLC and compared both ways with the formula's truth table; non-trivial = at least two clauses exported",
 		Require: []string{"export.enumerated", "export.with-auxiliary-variables", "uniq.size>=5"},
 	})
 
